@@ -194,6 +194,14 @@ Scheme Em_mind := Minimality for Em Sort Prop
   with CasesEm_mind := Minimality for CasesEm Sort Prop.
 Combined Scheme Em_mutind from Em_mind, AltEm_mind, CasesEm_mind.
 
+Lemma Em_nil_inv ko l c l1 ll : Em ko l c l1 ll -> c = [] -> l1 = l.
+Proof.
+  induction 1; intros E; try reflexivity; try discriminate.
+  - apply app_eq_nil in E as [-> ->]. rewrite IHEm2 by reflexivity. apply IHEm1. reflexivity.
+  - apply app_eq_nil in E as [_ E]. discriminate.
+  - apply app_eq_nil in E as [_ E]. apply app_eq_nil in E as [_ E]. discriminate.
+Qed.
+
 (** [emit] only produces such code *)
 Section Emits.
 Variable g : grammar.
@@ -269,10 +277,7 @@ Proof.
   - inv H; constructor.
   - inv H; constructor.
   - destruct (seq_emit_Em _ IH _ _ _ _ _ _ _ _ _ H) as (ll' & E & El). subst ll.
-    destruct c; [|exact E]. inv E; try constructor.
-    all: try match goal with H : [] = _ ++ _ |- _ => symmetry in H; apply app_eq_nil in H; destruct H; subst end.
-    all: try constructor.
-    all: try (destruct (used _); discriminate).
+    destruct c; [|exact E]. rewrite (Em_nil_inv _ _ _ _ _ E eq_refl). constructor.
   - destruct (alt_emit used (emit n) es ko l (S l)) as [cx lx] eqn:Ex. inv H.
     apply em_alt. eapply alt_emit_Em; eauto.
   - destruct (emit n e ko false false (S l)) as [[cx lx] llx] eqn:Ex. inv H. eapply em_and; eauto.
@@ -287,4 +292,352 @@ Proof.
     eapply em_switch; eauto. eapply cases_emit_Em; eauto.
 Qed.
 End Emits.
+
+(** * computing with jumps / labels of the shapes *)
+Lemma jumps_cons x c : jumps (x :: c) = jumps1 x ++ jumps c.  Proof. reflexivity. Qed.
+Lemma lbls_cons x c : lbls (x :: c) = lbls1 x ++ lbls c.  Proof. reflexivity. Qed.
+Lemma jumps_block b : jumps [KBlock b] = jumps b.
+Proof. unfold jumps. cbn [flat_map jumps1]. apply app_nil_r. Qed.
+Lemma lbls_block b : lbls [KBlock b] = lbls b.
+Proof. unfold lbls. cbn [flat_map lbls1]. apply app_nil_r. Qed.
+Lemma jumps_lbl_if n : jumps (lbl_if n) = [].
+Proof. unfold Emit.lbl_if. destruct (used n); reflexivity. Qed.
+Lemma lbls_lbl_if n x : In x (lbls (lbl_if n)) -> x = n /\ used n = true.
+Proof. unfold Emit.lbl_if. destruct (used n) eqn:E; cbn; [intros [<-|[]]; auto|intros []]. Qed.
+Lemma jumps_usep ok : jumps (if ast then [KUseP ok] else [KUseP ok; KSt]) = [].
+Proof. destruct ast; reflexivity. Qed.
+Lemma lbls_usep ok : lbls (if ast then [KUseP ok] else [KUseP ok; KSt]) = [].
+Proof. destruct ast; reflexivity. Qed.
+Lemma jumps_brk ll : jumps (brk ll) = [].  Proof. destruct ll; reflexivity. Qed.
+Lemma lbls_brk ll : lbls (brk ll) = [].  Proof. destruct ll; reflexivity. Qed.
+
+Lemma jumps_switch cls d : jumps [KSwitch cls d] = flat_map jumps cls ++ jumps d.
+Proof. unfold jumps. cbn [flat_map jumps1]. rewrite app_nil_r. reflexivity. Qed.
+Lemma lbls_switch cls d : lbls [KSwitch cls d] = flat_map lbls cls ++ lbls d.
+Proof. unfold lbls. cbn [flat_map lbls1]. rewrite app_nil_r. reflexivity. Qed.
+
+Ltac inx :=
+  repeat match goal with
+         | H : In _ (jumps (_ ++ _)) |- _ => rewrite jumps_app in H
+         | H : In _ (lbls (_ ++ _)) |- _ => rewrite lbls_app in H
+         | H : In _ (jumps [KBlock _]) |- _ => rewrite jumps_block in H
+         | H : In _ (lbls [KBlock _]) |- _ => rewrite lbls_block in H
+         | H : In _ (jumps (lbl_if _)) |- _ => rewrite jumps_lbl_if in H
+         | H : In _ (jumps (brk _)) |- _ => rewrite jumps_brk in H
+         | H : In _ (lbls (brk _)) |- _ => rewrite lbls_brk in H
+         | H : In _ (lbls (lbl_if _)) |- _ => apply lbls_lbl_if in H; destruct H
+         | H : In _ (jumps [KSwitch _ _]) |- _ => rewrite jumps_switch in H
+         | H : In _ (lbls [KSwitch _ _]) |- _ => rewrite lbls_switch in H
+         | H : In _ (flat_map jumps _) |- _ => apply in_flat_map in H; destruct H as (? & ? & ?)
+         | H : In _ (flat_map lbls _) |- _ => apply in_flat_map in H; destruct H as (? & ? & ?)
+         | H : In _ (jumps (_ :: _)) |- _ => rewrite jumps_cons in H; cbn [jumps1] in H
+         | H : In _ (lbls (_ :: _)) |- _ => rewrite lbls_cons in H; cbn [lbls1] in H
+         | H : In _ (jumps []) |- _ => destruct H
+         | H : In _ (lbls []) |- _ => destruct H
+         | H : In _ (_ ++ _) |- _ => apply in_app_or in H; destruct H
+         | H : In _ (_ :: _) |- _ => destruct H as [H|H]; [try subst|]
+         | H : In _ [] |- _ => destruct H
+         end.
+
+(** * A: label numbers stay in the allocated range; jumps go there or to the failure label *)
+Definition rngE (ko l : nat) (c : list code) (l' : nat) (ll : bool) : Prop :=
+  l <= l' /\ (forall j, In j (jumps c) -> j = ko \/ l <= j < l') /\ (forall x, In x (lbls c) -> l <= x < l' /\ used x = true).
+Definition rngA (ko ok l : nat) (c : list code) (l' : nat) : Prop :=
+  l <= l' /\ (forall j, In j (jumps c) -> j = ko \/ j = ok \/ l <= j < l') /\ (forall x, In x (lbls c) -> l <= x < l' /\ used x = true).
+Definition rngC (ko l : nat) (cls : list (list code)) (l' : nat) : Prop :=
+  l <= l' /\ (forall k j, In k cls -> In j (jumps k) -> j = ko \/ l <= j < l') /\
+  (forall k x, In k cls -> In x (lbls k) -> l <= x < l' /\ used x = true).
+
+Ltac inx2 :=
+  repeat (first [progress inx | match goal with
+         | H : In _ (jumps [KSwitch _ _]) |- _ => rewrite jumps_switch in H
+         | H : In _ (lbls [KSwitch _ _]) |- _ => rewrite lbls_switch in H
+         | H : In _ (flat_map jumps _) |- _ => apply in_flat_map in H; destruct H as (? & ? & ?)
+         | H : In _ (flat_map lbls _) |- _ => apply in_flat_map in H; destruct H as (? & ? & ?)
+         | H : In _ (jumps (if _ then _ else _)) |- _ => rewrite jumps_usep in H
+         | H : In _ (lbls (if _ then _ else _)) |- _ => rewrite lbls_usep in H
+         end]).
+
+Ltac fin :=
+  repeat match goal with
+         | Hi : In ?j (jumps ?a), H : forall j, In j (jumps ?a) -> _ |- _ => specialize (H _ Hi)
+         | Hi : In ?j (lbls ?a), H : forall x, In x (lbls ?a) -> _ |- _ => specialize (H _ Hi)
+         | Hk : In ?k ?cls, Hi : In ?j (jumps ?k), H : forall k j, In k ?cls -> In j (jumps k) -> _ |- _ => specialize (H _ _ Hk Hi)
+         | Hk : In ?k ?cls, Hi : In ?j (lbls ?k), H : forall k x, In k ?cls -> In x (lbls k) -> _ |- _ => specialize (H _ _ Hk Hi)
+         | H : _ /\ _ |- _ => destruct H
+         | H : _ \/ _ |- _ => destruct H
+         end; subst;
+  try (split; [lia|assumption]);
+  try (first [left; lia | right; left; lia | right; right; lia | right; lia | lia]).
+
+Theorem ranges :
+  (forall ko l c l' ll, Em ko l c l' ll -> rngE ko l c l' ll) /\
+  (forall ko ok l c l', AltEm ko ok l c l' -> rngA ko ok l c l') /\
+  (forall ko l cls l', CasesEm ko l cls l' -> rngC ko l cls l').
+Proof.
+  apply Em_mutind; unfold rngE, rngA, rngC; intros.
+  all: repeat match goal with H : _ /\ _ |- _ => destruct H end.
+  all: (split; [lia|split; intros; inx2; try discriminate; fin]).
+Qed.
+
+
+(** * B: a label is declared at most once *)
+Lemma nodup_app {A} (a b : list A) : NoDup a -> NoDup b -> (forall x, In x a -> In x b -> False) -> NoDup (a ++ b).
+Proof.
+  induction a as [|y a IH]; intros Ha Hb Hd; [exact Hb|]. inv Ha. cbn [app]. constructor.
+  - intros Hi. apply in_app_or in Hi as [Hi|Hi]; [auto|]. eapply Hd; [left; reflexivity|exact Hi].
+  - apply IH; auto. intros x Hx. apply Hd. right. exact Hx.
+Qed.
+Lemma nodup_lbl_if n : NoDup (lbls (lbl_if n)).
+Proof. unfold Emit.lbl_if. destruct (used n); cbn; repeat constructor. intros []. Qed.
+
+Ltac ranges_of :=
+  repeat match goal with
+         | H : Em _ _ _ _ _ |- _ => let R := fresh "R" in pose proof (proj1 ranges _ _ _ _ _ H) as R; unfold rngE in R; revert H
+         | H : AltEm _ _ _ _ _ |- _ => let R := fresh "R" in pose proof (proj1 (proj2 ranges) _ _ _ _ _ H) as R; unfold rngA in R; revert H
+         | H : CasesEm _ _ _ _ |- _ => let R := fresh "R" in pose proof (proj2 (proj2 ranges) _ _ _ _ H) as R; unfold rngC in R; revert H
+         end; intros.
+
+Ltac nd :=
+  repeat match goal with
+         | |- NoDup (lbls (_ ++ _)) => rewrite lbls_app; apply nodup_app
+         | |- NoDup (lbls [KBlock _]) => rewrite lbls_block
+         | |- NoDup (lbls [KSwitch _ _]) => rewrite lbls_switch; apply nodup_app
+         | |- NoDup (lbls (lbl_if _)) => apply nodup_lbl_if
+         | |- NoDup (lbls (if _ then _ else _)) => rewrite lbls_usep; constructor
+         | |- NoDup (lbls (brk _)) => rewrite lbls_brk; constructor
+         | |- NoDup (lbls []) => constructor
+         | |- NoDup [] => constructor
+         | |- NoDup (lbls (_ :: _)) => rewrite lbls_cons; cbn [lbls1 app]
+         | |- NoDup _ => assumption
+         end.
+
+Theorem labels_unique :
+  (forall ko l c l' ll, Em ko l c l' ll -> NoDup (lbls c)) /\
+  (forall ko ok l c l', AltEm ko ok l c l' -> NoDup (lbls c)) /\
+  (forall ko l cls l', CasesEm ko l cls l' -> NoDup (flat_map lbls cls)).
+Proof.
+  apply Em_mutind; intros; ranges_of.
+  all: try (cbn [flat_map]; fold (lbls (c ++ brk ll))).
+  all: nd.
+  all: try (intros; inx2; try discriminate; fin; fail).
+  apply nodup_app; [nd; intros; inx2|exact H2|intros; inx2; fin].
+Qed.
+
+
+(** * C: every goto has its label in scope *)
+Lemma scoped_nil sc : scoped sc [] = true.  Proof. reflexivity. Qed.
+Lemma scoped_block sc b : scoped sc [KBlock b] = scoped sc b.
+Proof. unfold scoped. cbn [dlbls flat_map dlbl1 app forallb scoped1]. rewrite andb_true_r. reflexivity. Qed.
+Lemma scoped_jmp sc t : In t sc -> scoped sc [KJmp t] = true.
+Proof. intros H. unfold scoped. cbn. rewrite andb_true_r. apply memb_in. exact H. Qed.
+Lemma scoped_cjmp sc t : In t sc -> scoped sc [KCJmp t] = true.
+Proof. intros H. unfold scoped. cbn. rewrite andb_true_r. apply memb_in. exact H. Qed.
+Lemma scoped_lbl_if sc n : scoped sc (lbl_if n) = true.
+Proof. unfold Emit.lbl_if. destruct (used n); reflexivity. Qed.
+Lemma scoped_brk sc ll : scoped sc (brk ll) = true.  Proof. destruct ll; reflexivity. Qed.
+Lemma scoped_usep sc ok : scoped sc (if ast then [KUseP ok] else [KUseP ok; KSt]) = true.
+Proof. destruct ast; reflexivity. Qed.
+Lemma scoped_cons sc x c : scoped (dlbls c ++ sc) [x] = true -> scoped (dlbl1 x ++ sc) c = true -> scoped sc (x :: c) = true.
+Proof.
+  intros H1 H2. change (x :: c) with ([x] ++ c). apply scoped_app; [exact H1|].
+  unfold dlbls at 1. cbn [flat_map]. rewrite app_nil_r. exact H2.
+Qed.
+Lemma in_dlbls_lbl_if n : used n = true -> In n (dlbls (lbl_if n)).
+Proof. intros H. unfold Emit.lbl_if. rewrite H. left. reflexivity. Qed.
+Lemma scoped_switch sc cls d : (forall k, In k cls -> scoped sc k = true) -> scoped sc d = true -> scoped sc [KSwitch cls d] = true.
+Proof.
+  intros Hc Hd. unfold scoped. cbn [dlbls flat_map dlbl1 app forallb scoped1]. rewrite andb_true_r.
+  apply andb_true_iff. split; [|exact Hd]. apply forallb_forall. intros k Hk. apply (Hc k Hk).
+Qed.
+
+(** a fragment proved against its own failure label fits wherever that label is visible *)
+Lemma scoped_into (k : nat) sc c : scoped [k] c = true -> (In k (jumps c) -> In k sc) -> scoped sc c = true.
+Proof.
+  intros H Hk. eapply scoped_mono; [|exact H]. intros n Hj [<-|[]]. apply Hk. exact Hj.
+Qed.
+Lemma scoped_into2 (k1 k2 : nat) sc c : scoped [k1; k2] c = true -> (In k1 (jumps c) -> In k1 sc) -> (In k2 (jumps c) -> In k2 sc) -> scoped sc c = true.
+Proof.
+  intros H H1 H2. eapply scoped_mono; [|exact H]. intros n Hj [<-|[<-|[]]]; auto.
+Qed.
+
+Ltac hu_norm Hu :=
+  repeat first [rewrite jumps_app in Hu | rewrite jumps_block in Hu | rewrite jumps_switch in Hu | rewrite jumps_lbl_if in Hu
+               | rewrite jumps_usep in Hu | rewrite jumps_brk in Hu | rewrite jumps_cons in Hu];
+  cbn [jumps1 app flat_map] in Hu.
+Ltac by_hu Hu := apply Hu; repeat rewrite in_app_iff; cbn [In]; auto 12.
+Ltac in_scope := repeat rewrite in_app_iff; repeat rewrite dlbls_app; repeat rewrite in_app_iff; cbn [dlbls flat_map dlbl1 app In]; auto 12.
+
+Theorem gotos_in_scope :
+  (forall ko l c l' ll, Em ko l c l' ll -> (forall j, In j (jumps c) -> used j = true) -> scoped [ko] c = true) /\
+  (forall ko ok l c l', AltEm ko ok l c l' -> (forall j, In j (jumps c) -> used j = true) -> scoped [ko; ok] c = true) /\
+  (forall ko l cls l', CasesEm ko l cls l' -> (forall k j, In k cls -> In j (jumps k) -> used j = true) -> forall k, In k cls -> scoped [ko] k = true).
+Proof.
+  apply Em_mutind; intros.
+  - reflexivity.
+  - apply scoped_cjmp. left. reflexivity.
+  - reflexivity.
+  - apply scoped_cons; [apply scoped_cjmp; in_scope|reflexivity].
+  - (* seq *) hu_norm H3. apply scoped_app.
+    + eapply scoped_into; [apply H0; intros; by_hu H3|]. intros _. in_scope.
+    + eapply scoped_into; [apply H2; intros; by_hu H3|]. intros _. in_scope.
+  - (* ipush *) rewrite scoped_block. hu_norm H1. apply scoped_cons; [reflexivity|]. apply scoped_app; [|reflexivity].
+    eapply scoped_into; [apply H0; intros; by_hu H1|]. intros _. in_scope.
+  - reflexivity.
+  - reflexivity.
+  - (* alt *) hu_norm H1. apply scoped_app; [|apply scoped_lbl_if]. rewrite scoped_block. apply scoped_cons; [reflexivity|].
+    eapply scoped_into2; [apply H0; intros; by_hu H1| |].
+    + intros _. in_scope.
+    + intros Hj. assert (used ok = true) by (by_hu H1). pose proof (in_dlbls_lbl_if _ H2). in_scope.
+  - (* switch *) hu_norm H3. apply scoped_app; [|apply scoped_lbl_if]. rewrite scoped_block. apply scoped_switch.
+    + intros k Hk. eapply scoped_into; [eapply H0; [|exact Hk]|].
+      * intros k0 j Hk0 Hj. apply H3. repeat rewrite in_app_iff. left. left. eapply in_flat_map_intro; eauto.
+      * intros _. in_scope.
+    + apply scoped_app; [|apply scoped_brk]. eapply scoped_into; [apply H2; intros; by_hu H3|]. intros _. in_scope.
+  - (* and *) rewrite scoped_block. hu_norm H1. apply scoped_cons; [reflexivity|]. apply scoped_app; [|reflexivity].
+    eapply scoped_into; [apply H0; intros; by_hu H1|]. intros _. in_scope.
+  - (* not *) rewrite scoped_block. hu_norm H1. apply scoped_cons; [reflexivity|]. apply scoped_app.
+    + eapply scoped_into; [apply H0; intros; by_hu H1|]. intros Hj.
+      assert (used ok = true) by (by_hu H1). pose proof (in_dlbls_lbl_if _ H2). in_scope.
+    + apply scoped_cons; [apply scoped_jmp; in_scope|]. apply scoped_app; [apply scoped_lbl_if|reflexivity].
+  - (* query *) hu_norm H1. apply scoped_app; [|apply scoped_lbl_if]. rewrite scoped_block. apply scoped_cons; [reflexivity|]. apply scoped_app.
+    + eapply scoped_into; [apply H0; intros; by_hu H1|]. intros Hj.
+      assert (used qko = true) by (by_hu H1). pose proof (in_dlbls_lbl_if _ H2). in_scope.
+    + apply scoped_cons; [apply scoped_jmp|apply scoped_app; [apply scoped_lbl_if|reflexivity]].
+      assert (used (S qko) = true) by (by_hu H1). pose proof (in_dlbls_lbl_if _ H2). in_scope.
+  - (* star *) hu_norm H1. apply scoped_app; [apply scoped_lbl_if|]. rewrite scoped_block. apply scoped_cons; [reflexivity|]. apply scoped_app.
+    + eapply scoped_into; [apply H0; intros; by_hu H1|]. intros Hj.
+      assert (used (S again) = true) by (by_hu H1). pose proof (in_dlbls_lbl_if _ H2). in_scope.
+    + apply scoped_cons; [apply scoped_jmp|apply scoped_app; [apply scoped_lbl_if|reflexivity]].
+      assert (used again = true) by (by_hu H1). pose proof (in_dlbls_lbl_if _ H2). in_scope.
+  - (* plus *) hu_norm H3. apply scoped_app.
+    + eapply scoped_into; [apply H0; intros; by_hu H3|]. intros _. in_scope.
+    + apply scoped_app; [apply scoped_lbl_if|]. rewrite scoped_block. apply scoped_cons; [reflexivity|]. apply scoped_app.
+      * eapply scoped_into; [apply H2; intros; by_hu H3|]. intros Hj.
+        assert (used (S again) = true) by (by_hu H3). pose proof (in_dlbls_lbl_if _ H4). in_scope.
+      * apply scoped_cons; [apply scoped_jmp|apply scoped_app; [apply scoped_lbl_if|reflexivity]].
+        assert (used again = true) by (by_hu H3). pose proof (in_dlbls_lbl_if _ H4). in_scope.
+  - (* push *) rewrite scoped_block. hu_norm H1. apply scoped_cons; [reflexivity|]. apply scoped_app; [|apply scoped_usep].
+    eapply scoped_into; [apply H0; intros; by_hu H1|]. intros _. in_scope.
+  - reflexivity.
+  - (* alt_one *) eapply scoped_into; [apply H0; exact H1|]. intros _. in_scope.
+  - (* alt_cons *) hu_norm H3. apply scoped_app.
+    + eapply scoped_into; [apply H0; intros; by_hu H3|]. intros Hj.
+      assert (used l = true) by (by_hu H3). pose proof (in_dlbls_lbl_if _ H4). in_scope.
+    + apply scoped_cons; [apply scoped_jmp; in_scope|]. apply scoped_app; [apply scoped_lbl_if|]. apply scoped_cons; [reflexivity|].
+      eapply scoped_into2; [apply H2; intros; by_hu H3| |]; intros _; in_scope.
+  - destruct H0.
+  - (* cases_cons *) destruct H4 as [<-|Hk].
+    + apply scoped_app; [|apply scoped_brk]. eapply scoped_into; [apply H0|].
+      * intros j Hj. apply (H3 (c ++ brk ll) j); [left; reflexivity|]. rewrite jumps_app. apply in_or_app. left. exact Hj.
+      * intros _. in_scope.
+    + apply H2; [|exact Hk]. intros k0 j Hk0 Hj. apply (H3 k0 j); [right; exact Hk0|exact Hj].
+Qed.
+
+
+(** * D: the flag is exact, and no label stands directly before a case clause *)
+Lemma ends_lbl_app a b : ends_lbl (a ++ b) = match b with [] => ends_lbl a | _ => ends_lbl b end.
+Proof.
+  destruct b as [|y b]; [rewrite app_nil_r; reflexivity|]. unfold ends_lbl. rewrite rev_app_distr.
+  destruct (rev (y :: b)) as [|z r] eqn:E; [|reflexivity].
+  apply (f_equal (@length _)) in E. rewrite rev_length in E. discriminate.
+Qed.
+Lemma ends_lbl_if a n : (a <> [] -> ends_lbl a = false) -> a <> [] -> ends_lbl (a ++ lbl_if n) = used n.
+Proof.
+  intros Ha Hn. rewrite ends_lbl_app. unfold Emit.lbl_if. destruct (used n); [reflexivity|]. auto.
+Qed.
+Lemma ends_brk c ll : ll = ends_lbl c -> ends_lbl (c ++ brk ll) = false.
+Proof. intros ->. rewrite ends_lbl_app. destruct (ends_lbl c) eqn:E; cbn [brk]; reflexivity. Qed.
+Lemma cases1_lbl_if n : forallb cases1 (lbl_if n) = true.
+Proof. unfold Emit.lbl_if. destruct (used n); reflexivity. Qed.
+Lemma cases1_brk ll : forallb cases1 (brk ll) = true.  Proof. destruct ll; reflexivity. Qed.
+Lemma cases1_usep ok : forallb cases1 (if ast then [KUseP ok] else [KUseP ok; KSt]) = true.
+Proof. destruct ast; reflexivity. Qed.
+
+Ltac fa := repeat first [rewrite forallb_app | rewrite cases1_lbl_if | rewrite cases1_brk | rewrite cases1_usep
+                        | progress cbn [forallb cases1 andb]]; repeat rewrite andb_true_r.
+
+Ltac rw_all := repeat match goal with H : _ = true |- _ => rewrite H; clear H end; try reflexivity.
+
+Theorem flag_exact_and_cases :
+  (forall ko l c l' ll, Em ko l c l' ll -> ll = ends_lbl c /\ forallb cases1 c = true) /\
+  (forall ko ok l c l', AltEm ko ok l c l' -> forallb cases1 c = true) /\
+  (forall ko l cls l', CasesEm ko l cls l' -> forallb (fun k => negb (ends_lbl k) && forallb cases1 k) cls = true).
+Proof.
+  apply Em_mutind; intros; repeat match goal with H : _ /\ _ |- _ => destruct H end.
+  all: try split.
+  all: try reflexivity.
+  all: try (fa; rw_all; fail).
+  all: try (symmetry; apply ends_lbl_if; [reflexivity|discriminate]).
+  - (* seq *) rewrite ends_lbl_app. destruct b; auto.
+  - (* star *) rewrite ends_lbl_app. reflexivity.
+  - (* plus *) rewrite app_assoc, ends_lbl_app. reflexivity.
+  - (* cases_cons *) cbn [forallb]. match goal with H : ll = ends_lbl c |- _ => rewrite (ends_brk _ _ H) end. fa. rw_all.
+Qed.
+
+(** * E: declarations stand at the head of their block *)
+Definition nodecl (c : list code) : bool := forallb (fun y => negb (is_decl y)) c.
+Lemma nodecl_app a b : nodecl (a ++ b) = nodecl a && nodecl b.  Proof. apply forallb_app. Qed.
+Lemma nodecl_lbl_if n : nodecl (lbl_if n) = true.  Proof. unfold Emit.lbl_if. destruct (used n); reflexivity. Qed.
+Lemma nodecl_brk ll : nodecl (brk ll) = true.  Proof. destruct ll; reflexivity. Qed.
+Lemma nodecl_usep ok : nodecl (if ast then [KUseP ok] else [KUseP ok; KSt]) = true.  Proof. destruct ast; reflexivity. Qed.
+Lemma decl1_lbl_if n : forallb decl1 (lbl_if n) = true.  Proof. unfold Emit.lbl_if. destruct (used n); reflexivity. Qed.
+Lemma decl1_brk ll : forallb decl1 (brk ll) = true.  Proof. destruct ll; reflexivity. Qed.
+Lemma decl1_usep ok : forallb decl1 (if ast then [KUseP ok] else [KUseP ok; KSt]) = true.  Proof. destruct ast; reflexivity. Qed.
+Lemma nodecl_suffix (f : code -> bool) c : nodecl c = true -> nodecl (drop_while f c) = true.
+Proof.
+  induction c as [|x c IH]; intros H; [reflexivity|]. cbn [drop_while]. destruct (f x); [|exact H].
+  apply IH. cbn [nodecl forallb] in H. apply andb_true_iff in H. tauto.
+Qed.
+Lemma head_decls_cons d c : is_decl d = true -> nodecl c = true -> head_decls (d :: c) = true.
+Proof.
+  intros Hd Hc. unfold head_decls. assert (is_st d = false) by (destruct d; try discriminate; reflexivity).
+  cbn [drop_while]. rewrite H. cbn [drop_while]. rewrite Hd. apply (nodecl_suffix is_decl c Hc).
+Qed.
+Lemma head_decls_nodecl c : nodecl c = true -> head_decls c = true.
+Proof. intros H. unfold head_decls. apply (nodecl_suffix is_decl). apply (nodecl_suffix is_st). exact H. Qed.
+
+Ltac fd := repeat first [rewrite forallb_app | rewrite nodecl_app | rewrite nodecl_lbl_if | rewrite nodecl_brk | rewrite nodecl_usep
+                        | rewrite decl1_lbl_if | rewrite decl1_brk | rewrite decl1_usep
+                        | progress cbn [forallb decl1 is_decl negb andb]]; repeat rewrite andb_true_r.
+
+Ltac hd := repeat first [rewrite head_decls_cons; [|reflexivity|fd; rw_all] | progress fd].
+
+Theorem declarations_at_head :
+  (forall ko l c l' ll, Em ko l c l' ll -> nodecl c = true /\ forallb decl1 c = true) /\
+  (forall ko ok l c l', AltEm ko ok l c l' -> nodecl c = true /\ forallb decl1 c = true) /\
+  (forall ko l cls l', CasesEm ko l cls l' -> forallb (fun k => nodecl k && forallb decl1 k) cls = true).
+Proof.
+  apply Em_mutind; intros; repeat match goal with H : _ /\ _ |- _ => destruct H end.
+  all: try split.
+  all: try reflexivity.
+  all: try assumption.
+  all: try (fd; rw_all; fail).
+  all: try (fd; rewrite head_decls_cons; [|reflexivity|fd; rw_all]; fd; rw_all; fail).
+  - (* switch *) fd.
+    match goal with H : forallb _ cls = true |- _ => change (forallb (fun k => forallb (fun y => negb (is_decl y)) k && forallb decl1 k) cls = true) in H; rewrite H end.
+    match goal with H : nodecl cd = true |- _ => unfold nodecl in H; rewrite H end.
+    rw_all.
+Qed.
+
 End Shape.
+
+(** * together, for the code of any expression *)
+Theorem emit_wellformed g ast inl asu used n e ko pd mk l c l' ll :
+  emit g ast inl asu used n e ko pd mk l = (c, l', ll) ->
+  l <= l' /\
+  (forall j, In j (jumps c) -> j = ko \/ l <= j < l') /\
+  (forall x, In x (lbls c) -> l <= x < l' /\ used x = true) /\
+  NoDup (lbls c) /\
+  ((forall j, In j (jumps c) -> used j = true) -> scoped [ko] c = true) /\
+  ll = ends_lbl c /\ forallb cases1 c = true /\
+  nodecl c = true /\ forallb decl1 c = true.
+Proof.
+  intros H. apply emit_Em in H.
+  destruct (proj1 (ranges ast used) _ _ _ _ _ H) as (A1 & A2 & A3).
+  pose proof (proj1 (labels_unique ast used) _ _ _ _ _ H) as B.
+  pose proof (proj1 (gotos_in_scope ast used) _ _ _ _ _ H) as C.
+  destruct (proj1 (flag_exact_and_cases ast used) _ _ _ _ _ H) as (D1 & D2).
+  destruct (proj1 (declarations_at_head ast used) _ _ _ _ _ H) as (E1 & E2).
+  repeat split; auto.
+Qed.
